@@ -822,6 +822,10 @@ fn gen_plan(rng: &mut Rng, kind: u8, faults: bool) -> Plan {
         } else if REAL_RUSTFMT.load(std::sync::atomic::Ordering::Relaxed) && rng.chance(1, 3) {
             rustfmt = "real".to_string();
         }
+    } else if rng.chance(1, 4) {
+        // C16 histories inject no I/O faults, but the formatter child is part of the environment the output must not depend
+        // on: where it fails the invocation may fail, a success must still be the one output
+        rustfmt = rng.pick(&["fail", "nonutf8", "missing", "killed", "killedpartial"]).to_string();
     }
     Plan { hash_seed, rules, rustfmt }
 }
@@ -857,13 +861,13 @@ fn gen_scenario(rng: &mut Rng, defs: &[Definition], index: u64, faults: bool) ->
         steps.push(Step::Check { fmt, plan });
     }
     for _ in 0..n {
-        let w: [u32; 7] = if faults { [24, 8, 26, 8, 6, 8, 20] } else { [30, 0, 40, 0, 30, 0, 0] };
+        let w: [u32; 7] = if faults { [24, 8, 26, 8, 6, 8, 20] } else { [24, 8, 32, 8, 28, 0, 0] };
         steps.push(match rng.weighted(&w) {
             0 => Step::Write { fmt: false, plan: gen_plan(rng, 0, faults) },
             1 => Step::Write { fmt: true, plan: gen_plan(rng, 0, faults) },
             2 => Step::Check { fmt: false, plan: gen_plan(rng, 1, faults) },
             3 => Step::Check { fmt: true, plan: gen_plan(rng, 1, faults) },
-            4 => { let fmt = faults && rng.chance(1, 3); Step::Print { fmt, plan: gen_plan(rng, 2, faults) } }
+            4 => { let fmt = rng.chance(1, 3); Step::Print { fmt, plan: gen_plan(rng, 2, faults) } }
             5 => {
                 let other = &defs[rng.below(defs.len())];
                 approx_len = 4000;
